@@ -61,13 +61,23 @@ func init() {
 			"limit), GetMessage(id just returned) must succeed iff the model kept the new message, and a delivery larger than the whole " +
 			"limit must fail and change nothing.  A case is non-trivial when the " +
 			"model evicted at least one message and a later delivery was kept; distinct by (configuration, eviction/removal features " +
-			"reached, number of mailboxes).",
+			"reached, number of mailboxes).  Streams lostfile, capchange, overtake: see the files.  Stream overlap (160/2400): 2-8 senders " +
+			"deliver in rounds to the same one or two capped mailboxes (file and memory store, cap 1,2,3,5), one or two deliveries per " +
+			"round parked inside their body read on a gate while the others run; at every quiescent point each mailbox lists at most cap " +
+			"messages, only delivered ones under their ids, none that cap later deliveries strictly follow, every one that fewer than cap " +
+			"deliveries follow or overlap, in an order agreeing with precedence.  Stream purgerace (120/1800, 3-6 rounds each): a memory " +
+			"store with maxkb 4/8/20 filled with old mail and a witness mailbox; one client purges / removes the oldest mail while 2-6 " +
+			"senders deliver; at quiescence stored bytes <= limit, nothing removed is listed, no message nobody removed is missing while " +
+			"a message delivered completely before it is present, and none is missing at all unless the messages the client did not " +
+			"remove exceed the limit by themselves (then the store must end up fuller than limit - largest missing message).",
 		Assumptions: []string{
 			"histories are sequential: AddMessage waits for the size enforcer (enforcerDeliver blocks), so the state is settled when it returns",
 			"sizes are the number of bytes of the Delivery reader, which is what both stores keep",
 			"the model applies the cap first (oldest of the mailbox), then the size limit (globally oldest) - the order that evicts the least",
 			"a message larger than the whole limit is refused by AddMessage with an error and leaves the store exactly unchanged (nothing stored, nothing evicted)",
 			"maxkb is passed through cfg.Params[\"maxkb\"], the cap through cfg.MailboxMsgCap, as documented in doc/config.md",
+			"overlap/purgerace: a delivery X precedes Y when AddMessage(X) returned before AddMessage(Y) was called (logical clock stamped around the calls); nothing is demanded about the order of overlapping calls",
+			"purgerace: the client removes only a prefix of the store's delivery order, so mail whose removal is in flight is always older than any message nobody removes",
 		},
 		MinObs: func(tier string) map[string]int64 {
 			k := int64(1)
@@ -89,6 +99,19 @@ func init() {
 				"mem/listings_compared":                     100000 * k,
 				"file/listings_compared":                    20000 * k,
 				"histories_cap_and_limit_with_removals":     50 * k,
+				// streams overlap and purgerace (after seeded changes C08-11, C08-12)
+				"overlap_histories:file":                       60 * k,
+				"overlap_histories:mem":                        60 * k,
+				"overlap_quiescent_listings":                   500 * k,
+				"overlap_listings_at_cap":                      300 * k,
+				"overlap_deliveries_started_inside_another":    1500 * k,
+				"overlap_slow_deliveries_parked_in_read":       250 * k,
+				"overlap_rounds_fast_completed_inside_slow":    100 * k,
+				"purgerace_rounds":                             300 * k,
+				"purgerace_deliveries_overlapping_the_removal": 300 * k,
+				"purgerace_removed_by_client":                  5000 * k,
+				"purgerace_rounds_keep_class_complete":         200 * k,
+				"purgerace_witness_messages_checked":           1000 * k,
 			}
 			for _, cf := range configs {
 				m["config:"+cf.String()] = 10 * k
@@ -116,6 +139,9 @@ func run(c *fw.Ctx) {
 	c.Cases("lostfile", c.N(96, 1440), func(i int, r *fw.Rand) { runLostFile(c, i, r) })
 	c.Cases("capchange", c.N(80, 1200), func(i int, r *fw.Rand) { runCapChange(c, i, r) })
 	c.Cases("overtake", c.N(90, 900), func(i int, r *fw.Rand) { runOvertake(c, i, r) })
+	// added after seeded changes C08-11 and C08-12: the two limits under overlapping calls
+	c.Cases("overlap", c.N(160, 2400), func(i int, r *fw.Rand) { runOverlap(c, i, r) })
+	c.Cases("purgerace", c.N(120, 1800), func(i int, r *fw.Rand) { runPurgeRace(c, i, r) })
 }
 
 var weights = c07.Weights{Add: 56, Get: 5, Latest: 3, List: 2, Seen: 4, Remove: 21, Purge: 5, Visit: 4}
